@@ -1301,7 +1301,7 @@ class ClassNode(AstNode, NamespaceMixin):
             ]
         )
 
-    def add_namespace(self, **kwargs):
+    def add_namespace(self, *args, **kwargs):
         """Replace method inherited from NamespaceMixin."""
         raise RuntimeError("Cannot add a namespace to a class")
 
@@ -2256,6 +2256,14 @@ def add_declarations(parent, node):
             check_string_fields(dct, ["decl"])
             decl = dct["decl"]
             del dct["decl"]
+            for key in ["name", "parent", "base", "ast", "parse_keyword",
+                        "template_parameters", "ntypemap"]:
+                # These are computed from decl.
+                if key in dct:
+                    raise RuntimeError(
+                        "Field '{}' is not allowed in the declaration of '{}' "
+                        "at line {}, it is taken from decl"
+                        .format(key, decl, dct.get("__line__", "?")))
 
             if "fstatements" in dct:
                 dct["fstatements"] = listify(dct["fstatements"], [
